@@ -2,7 +2,7 @@
 //! src/resources/asn.rs, src/rtr/payload.rs).
 use crate::rng::Rng;
 use crate::Ctx;
-use rpki::resources::addr::{MaxLenPrefix, Prefix, PrefixError};
+use rpki::resources::addr::{MaxLenError, MaxLenPrefix, ParseMaxLenPrefixError, ParsePrefixError, Prefix, PrefixError};
 use rpki::resources::asn::{Asn, SmallAsnSet};
 use rpki::rtr::payload::RouteOrigin;
 use std::cmp::Ordering;
@@ -88,8 +88,59 @@ fn show_list<I: Iterator<Item = Asn>>(it: I) -> String {
     if v.is_empty() { "-".into() } else { v.join(",") }
 }
 
+fn show_tpfx(r: Result<Prefix, ParsePrefixError>) -> String {
+    match r {
+        Ok(p) => format!("ok:{}:{}:{}", if p.is_v4() { 4 } else { 6 }, p.len(), bits_of(p.min_addr())),
+        Err(e) => format!("err:{}", tpfx_err(&e)),
+    }
+}
+
+fn tpfx_err(e: &ParsePrefixError) -> &'static str {
+    match e {
+        ParsePrefixError::Empty => "empty",
+        ParsePrefixError::MissingLen => "missinglen",
+        ParsePrefixError::InvalidAddr(_) => "addr",
+        ParsePrefixError::InvalidLen(_) => "len",
+        ParsePrefixError::InvalidPrefix(PrefixError::LenOverflow) => "overflow",
+        ParsePrefixError::InvalidPrefix(PrefixError::NonZeroHost) => "nonzero",
+        #[allow(unreachable_patterns)]
+        _ => "other",
+    }
+}
+
+/// `Prefix::from_str`, `Prefix::from_str_relaxed`, `MaxLenPrefix::from_str`, `Asn::from_str` on one text
+fn ptext(text: &str) -> String {
+    let m = match MaxLenPrefix::from_str(text) {
+        Ok(m) => {
+            let p = m.prefix();
+            format!("ok:{}:{}:{}:{}", if p.is_v4() { 4 } else { 6 }, p.len(), bits_of(p.min_addr()),
+                match m.max_len() { Some(k) => k.to_string(), None => "-".into() })
+        }
+        Err(ParseMaxLenPrefixError::InvalidPrefix(e)) => format!("err:pfx-{}", tpfx_err(&e)),
+        Err(ParseMaxLenPrefixError::InvalidMaxLenFormat(_)) => "err:mlfmt".into(),
+        Err(ParseMaxLenPrefixError::InvalidMaxLenValue(MaxLenError::Overflow)) => "err:mloverflow".into(),
+        Err(ParseMaxLenPrefixError::InvalidMaxLenValue(MaxLenError::Underflow)) => "err:mlunderflow".into(),
+        #[allow(unreachable_patterns)]
+        Err(_) => "err:other".into(),
+    };
+    let a = match Asn::from_str(text) { Ok(a) => a.into_u32().to_string(), Err(_) => "err".into() };
+    format!("s={} r={} m={} a={}", show_tpfx(Prefix::from_str(text)), show_tpfx(Prefix::from_str_relaxed(text)), m, a)
+}
+
 pub fn exec(toks: &[&str]) -> String {
     match toks {
+        ["ptext", hx] => match crate::rng::unhex(hx).and_then(|b| String::from_utf8(b).ok()) {
+            Some(t) => ptext(&t),
+            None => "bad-op".into(),
+        },
+        ["pfmt", p, ml, asn] => match (parse_pfx(p), parse_ml(ml), asn.parse::<u32>()) {
+            (Some(p), Some(ml), Ok(asn)) => {
+                let m = MaxLenPrefix::saturating_new(p, ml);
+                format!("{} {} {}", crate::rng::hex(p.to_string().as_bytes()), crate::rng::hex(m.to_string().as_bytes()),
+                    crate::rng::hex(Asn::from_u32(asn).to_string().as_bytes()))
+            }
+            _ => "bad-op".into(),
+        },
         ["pfx4", a, l] => show_pfx(Prefix::new_v4(Ipv4Addr::from(a.parse::<u32>().unwrap()), l.parse().unwrap())),
         ["rel4", a, l] => show_pfx(Prefix::new_v4_relaxed(Ipv4Addr::from(a.parse::<u32>().unwrap()), l.parse().unwrap())),
         ["pfx6", a, l] => show_pfx(Prefix::new_v6(Ipv6Addr::from(a.parse::<u128>().unwrap()), l.parse().unwrap())),
@@ -383,6 +434,64 @@ pub fn generate(ctx: &mut Ctx) {
         let (a1, a2) = (*rng.pick(&asns), if rng.bool() { *rng.pick(&asns) } else { rng.next() as u32 });
         let a2 = if rng.chance(1, 3) { a1 } else { a2 };
         ctx.case(&format!("origin {} {} {} {} {} {}", p, m1, a1, q, m2, a2));
+    }
+    // text forms: what Display writes (compared byte for byte with the model's formatter), the same texts
+    // and mutants of them through the four parsers (model: Rpki/Model/PfxText.lean)
+    {
+        let alphabet: &[u8] = b"0123456789abcdefABCDEF:./-+ sS";
+        let mut texts: Vec<String> = [
+            "", "/", "-", "/8", "10.0.0.0", "10.0.0.0/", "10.0.0.0/8", "10.0.0.0/+8", "10.0.0.0/08", "10.0.0.0/008",
+            "10.0.0.0/0008", "10.0.0.0/-8", "10.0.0.0/8 ", " 10.0.0.0/8", "10.0.0.0/256", "10.0.0.0/255", "10.0.0.0/33",
+            "10.0.0.0/32", "10.0.0.1/32", "10.0.0.1/31", "10.0.0.0/7", "010.0.0.0/8", "10.0.0/8", "10.0.0.0.0/8",
+            "10.0.0.0/8/8", "10.0.0.0//8", "0.0.0.0/0", "255.255.255.255/32", "256.0.0.0/8", "1.2.3.4/0",
+            "10.0.0.0/8-", "10.0.0.0/8-8", "10.0.0.0/8-7", "10.0.0.0/8-32", "10.0.0.0/8-33", "10.0.0.0/8-+9",
+            "10.0.0.0/8-09", "10.0.0.0/8-256", "10.0.0.0/8-24-25", "10.0.0.0-24", "-10.0.0.0/8", "10.0.0.0/8--24",
+            "10.0.0.0/8-128", "10.0.0.0/8-129", "::/0", "::/128", "::/129", "::1/128", "::1/127", "::/0-0", "::/0-128",
+            "::/0-129", "2001:db8::/32", "2001:db8::/32-48", "2001:DB8::/32", "2001:db8::/31", "2001:db8:0:0:0:0:0:0/32",
+            "2001:db8::1:0:0:0:0:0/32", "::ffff:1.2.3.4/128", "::ffff:1.2.3.4/96", "::ffff:1.2.3.0/120", "::1.2.3.4/128",
+            "1.2.3.4::/32", "1::2::3/128", ":::/0", "::%1/128", "[::]/0", "0::0/0", "00000::/0", "ffff:ffff:ffff:ffff:ffff:ffff:ffff:ffff/128",
+            "ffff:ffff:ffff:ffff:ffff:ffff:ffff:ffff/127", "ffff:ffff:ffff:ffff:ffff:ffff:255.255.255.255/128",
+            "::ffff:0:0/96", "64:ff9b::/96", "AS0", "as65000", "aS1", "As4294967295", "AS4294967296", "AS", "A", "S1", "AS+1",
+            "AS-1", "AS 1", "AS01", "0", "65000", "+7", "ASAS1", "as", "\u{e9}s1", "\u{e9}/8", "1.2.3.4/\u{663}",
+        ].iter().map(|s| s.to_string()).collect();
+        let npool = pool.len();
+        for p in pool.iter().take(npool) {
+            let ml = *rng.pick(&mls);
+            let asn = if rng.bool() { *rng.pick(&asns) } else { rng.next() as u32 };
+            ctx.case(&format!("pfmt {} {} {}", p, ml, asn));
+            if let Some(pp) = parse_pfx(p) {
+                texts.push(pp.to_string());
+                if let Some(mm) = parse_ml(ml) { texts.push(MaxLenPrefix::saturating_new(pp, mm).to_string()); }
+                // every length and max length around the written one, strict and relaxed readers
+                let a = pp.addr();
+                for l in [pp.len().wrapping_sub(1), pp.len(), pp.len().wrapping_add(1), 0, 32, 33, 128, 129] {
+                    texts.push(format!("{}/{}", a, l));
+                    texts.push(format!("{}/{}-{}", a, pp.len(), l));
+                }
+            }
+            texts.push(Asn::from_u32(asn).to_string());
+        }
+        let base = texts.clone();
+        let nmut = if thorough { 40 } else { 6 };
+        for t in &base {
+            for _ in 0..nmut {
+                let mut b = t.clone().into_bytes();
+                for _ in 0..(1 + rng.below(2)) {
+                    let c = *rng.pick(alphabet);
+                    match rng.below(4) {
+                        0 if !b.is_empty() => { let i = rng.below(b.len() as u64) as usize; b[i] = c; }
+                        1 if !b.is_empty() => { let i = rng.below(b.len() as u64) as usize; b.remove(i); }
+                        2 if !b.is_empty() => { let i = rng.below(b.len() as u64) as usize; let j = rng.below(b.len() as u64) as usize; b.swap(i, j); }
+                        _ => { let i = rng.below(b.len() as u64 + 1) as usize; b.insert(i, c); }
+                    }
+                }
+                if let Ok(s) = String::from_utf8(b) { texts.push(s); }
+            }
+        }
+        texts.sort(); texts.dedup();
+        for t in &texts {
+            ctx.case(&format!("ptext {}", crate::rng::hex(t.as_bytes())));
+        }
     }
     // AS multisets
     let dom = [0u32, 1, 2, 3, u32::MAX - 1, u32::MAX];
